@@ -16,10 +16,11 @@ NOT_BUILT = {}
 nb_path = os.path.join(HERE, "not_claimed.json")
 if os.path.exists(nb_path):
     NOT_BUILT = json.load(open(nb_path))
+CLAIMED = set(open(os.path.join(HERE, "claimed.txt")).read().split())
 for p in props:
     pid = p["id"]
     path = os.path.join(HERE, "checks", pid.lower() + ".py")
-    if not os.path.exists(path) or pid in NOT_BUILT:
+    if not os.path.exists(path) or pid in NOT_BUILT or pid not in CLAIMED:
         na.append({"property_id": pid, "reason": NOT_BUILT.get(pid, "check not built yet; see DESIGN.md section 3/%s for the planned model and binding" % pid)})
         continue
     m = importlib.import_module("checks." + pid.lower())
